@@ -322,6 +322,136 @@ example : SelectsJointly 3
     norm_num [chainProb, mdpRow]
   rwa [hv] at h
 
+/-! ## H': the same for every table ACCEPTED by `isProbability` (row sums within 1e-6 of one) -/
+
+/-- the draws in `[0,1)` mapped to index `k` of a row whose sum may differ from one: `[min c_k 1, min c_{k+1} 1)`,
+    the last index taking everything up to 1 -/
+def unitSide (l : List Rat) (k : Nat) : Rat × Rat :=
+  (min (cum l k) 1, if k + 1 < l.length then min (cum l (k + 1)) 1 else 1)
+
+theorem unitSide_len (l : List Rat) (k : Nat) : (unitSide l k).2 - (unitSide l k).1 = preimageLen l k := by
+  unfold unitSide preimageLen
+  by_cases h : k + 1 < l.length <;> simp [h]
+
+theorem unitSide_iff (l : List Rat) (u : Rat) (k : Nat) (hnn : ∀ x ∈ l, 0 ≤ x) (hne : l ≠ [])
+    (hu : 0 ≤ u) (hu1 : u < 1) :
+    sampleDense l u = k ↔ k < l.length ∧ inIv (unitSide l k) u := by
+  rw [dense_preimage_unit l u k hnn hne hu hu1]
+  unfold inIv unitSide
+  by_cases h : k + 1 < l.length
+  · simp only [h, if_true, forall_const]
+  · simp only [h, if_false]
+    constructor
+    · rintro ⟨a, b, _⟩; exact ⟨a, b, hu1⟩
+    · rintro ⟨a, b, _⟩; exact ⟨a, b, fun h' => False.elim h'⟩
+
+theorem unitSide_wf (l : List Rat) (k : Nat) (hnn : ∀ x ∈ l, 0 ≤ x) :
+    0 ≤ (unitSide l k).1 ∧ (unitSide l k).1 ≤ (unitSide l k).2 ∧ (unitSide l k).2 ≤ 1 := by
+  have h0 : 0 ≤ cum l k := cum_nonneg l k hnn
+  have h01 : cum l k ≤ cum l (k + 1) := cum_le_succ l k hnn
+  unfold unitSide
+  refine ⟨le_min h0 (by norm_num), ?_, ?_⟩
+  · by_cases h : k + 1 < l.length
+    · simp only [h, if_true]; exact min_le_min h01 (le_refl _)
+    · simp only [h, if_false]; exact min_le_right _ _
+  · by_cases h : k + 1 < l.length
+    · simp only [h, if_true]; exact min_le_right _ _
+    · simp only [h, if_false]; exact le_refl _
+
+/-- the rows along an outcome sequence are ACCEPTED by `isProbability` (sum within 1e-6 of one) -/
+def ChainAccepted (row : List Nat → List Rat) (hist tr : List Nat) : Prop :=
+  ∀ i, i < tr.length →
+    isProb (row (hist ++ tr.take i)) = true ∧ tr.getD i 0 < (row (hist ++ tr.take i)).length
+
+/-- **H2'** for accepted rows the draw vectors mapped to `tr` are still exactly one box -/
+theorem chainGo_box_valid (row : List Nat → List Rat) (hist tr : List Nat) (us : List Rat)
+    (hlen : us.length = tr.length) (hv : ChainAccepted row hist tr)
+    (hu : ∀ i, i < us.length → 0 ≤ us.getD i 0 ∧ us.getD i 0 < 1) :
+    chainGo row hist us = tr ↔
+      ∀ i, i < us.length → inIv (unitSide (row (hist ++ tr.take i)) (tr.getD i 0)) (us.getD i 0) := by
+  rw [chainGo_eq_iff]
+  have hrow : ∀ i, i < tr.length → (∀ x ∈ row (hist ++ tr.take i), 0 ≤ x) ∧ row (hist ++ tr.take i) ≠ [] := by
+    intro i hi
+    obtain ⟨hp, hk⟩ := hv i hi
+    refine ⟨((dense_isProb_iff _).mp hp).1, ?_⟩
+    intro he; rw [he] at hk; simp at hk
+  constructor
+  · rintro ⟨_, h⟩ i hi
+    obtain ⟨hnn, hne⟩ := hrow i (by omega)
+    exact ((unitSide_iff _ _ _ hnn hne (hu i hi).1 (hu i hi).2).mp (h i hi)).2
+  · intro h
+    refine ⟨hlen, fun i hi => ?_⟩
+    obtain ⟨hnn, hne⟩ := hrow i (by omega)
+    exact (unitSide_iff _ _ _ hnn hne (hu i hi).1 (hu i hi).2).mpr ⟨(hv i (by omega)).2, h i hi⟩
+
+/-- **H4'** (every length, every history-dependent row function, every table ACCEPTED by `isProbability`) the outcome
+    sequence `tr` is selected with joint probability Π_i q_i where each factor `q_i` is within 1e-6 of the table entry
+    `row(tr[:i])[tr_i]` -/
+theorem chain_selects_jointly_valid (row : List Nat → List Rat) (tr : List Nat) (hv : ChainAccepted row [] tr) :
+    SelectsJointly tr.length (chainSample row) tr
+        (((List.range tr.length).map (fun i => preimageLen (row (tr.take i)) (tr.getD i 0))).prod) ∧
+      ∀ i, i < tr.length →
+        absQ (preimageLen (row (tr.take i)) (tr.getD i 0) - (row (tr.take i)).getD (tr.getD i 0) 0)
+          ≤ Gen.equalToleranceSmall := by
+  constructor
+  · refine ⟨[(List.range tr.length).map (fun i => unitSide (row ([] ++ tr.take i)) (tr.getD i 0))],
+      ⟨?_, ?_, List.pairwise_singleton _ _⟩, ?_⟩
+    · intro us hlen hu
+      simp only [List.mem_singleton, exists_eq_left]
+      unfold chainSample
+      rw [chainGo_box_valid row [] tr us hlen hv (fun i hi => by
+        rw [mo_getD_eq_getElem _ _ _ hi]; exact hu _ (List.getElem_mem _))]
+      unfold inBox
+      rw [List.length_map, List.length_range, hlen]
+      constructor
+      · intro h
+        refine ⟨rfl, fun i hi => ?_⟩
+        rw [mo_getD_map_range _ (0, 0) _ i hi]
+        exact h i hi
+      · rintro ⟨_, h⟩ i hi
+        have := h i hi
+        rwa [mo_getD_map_range _ (0, 0) _ i hi] at this
+    · intro bx hb
+      rw [List.mem_singleton] at hb; subst hb
+      refine ⟨by simp, ?_⟩
+      intro iv hiv
+      simp only [List.mem_map, List.mem_range] at hiv
+      obtain ⟨i, hi, rfl⟩ := hiv
+      exact unitSide_wf _ _ ((dense_isProb_iff _).mp (hv i hi).1).1
+    · simp only [List.map_cons, List.map_nil, List.sum_cons, List.sum_nil, add_zero, boxVol, List.map_map]
+      congr 1
+      apply List.map_congr_left
+      intro i _
+      simp only [Function.comp, List.nil_append]
+      exact unitSide_len _ _
+  · intro i hi
+    obtain ⟨hp, hk⟩ := hv i hi
+    simp only [List.nil_append] at hp hk
+    have hne : row (tr.take i) ≠ [] := by intro he; rw [he] at hk; simp at hk
+    exact dense_preimage_length_valid _ _ hp hne hk
+
+/-- **H5'** rollouts of `sampleSR` on any model whose tables `isProbability` accepts -/
+theorem mdpRollout_selects_jointly_valid (T : Nat → Nat → List Rat) (pol : List Nat → Nat) (s0 : Nat) (tr : List Nat)
+    (hv : ChainAccepted (mdpRow T pol s0) [] tr) :
+    SelectsJointly tr.length (mdpRollout T pol s0) tr
+        (((List.range tr.length).map (fun i => preimageLen (mdpRow T pol s0 (tr.take i)) (tr.getD i 0))).prod) ∧
+      ∀ i, i < tr.length →
+        absQ (preimageLen (mdpRow T pol s0 (tr.take i)) (tr.getD i 0) - (mdpRow T pol s0 (tr.take i)).getD (tr.getD i 0) 0)
+          ≤ Gen.equalToleranceSmall :=
+  chain_selects_jointly_valid _ tr hv
+
+/-- test (H4'): one step on the row (1/2, 1/2 − 2⁻²¹) (accepted, sum below one): index 1 takes the slack -/
+example : SelectsJointly 1 (chainSample (fun _ => [1/2, 1/2 - 1/2^21])) [1] (1/2) := by
+  have h := (chain_selects_jointly_valid (fun _ => [1/2, 1/2 - 1/2^21]) [1] (by
+    intro i hi
+    obtain rfl : i = 0 := by simpa using hi
+    constructor
+    · norm_num [isProb, eqSmall, absQ, Gen.equalToleranceSmall]
+    · simp)).1
+  have hv : (((List.range [1].length).map (fun i => preimageLen ((fun _ => [1/2, 1/2 - 1/2^21]) ([1].take i)) ([1].getD i 0))).prod) = (1/2 : Rat) := by
+    norm_num [preimageLen, cum]
+  rwa [hv] at h
+
 /-! ## K: a copied engine -/
 
 /-- **K1** with a COPIED engine (both samples computed from the same draw) the outcome (0, 1) of two scans of
